@@ -180,14 +180,14 @@ PROPS["C18"] = {
 }
 
 PROPS["C22"] = {
-    "enc": ["SideMetadataSpec::find_prev_non_zero_value", "find_prev_non_zero_value_fast", "find_prev_non_zero_value_simple", "find_next_non_zero_value (+_fast, +_simple)",
+    "enc": ["SideMetadataSpec::find_prev_non_zero_value", "find_prev_non_zero_value_fast", "find_prev_non_zero_value_simple", "find_next_non_zero_value (+_fast, +_simple)", "scan_non_zero_values (+_fast, +_simple)", "scan_non_zero_bits_in_metadata_bytes/bits/word",
             "find_last/first_non_zero_bit_in_metadata_bytes/bits", "find_last/first_non_zero_bit", "align_metadata_address", "contiguous_meta_address_to_address", "ranges::break_bit_range"],
-    "sym": "all bytes of a 3-byte table slice (24 one-bit regions of 8 bytes: the VO-bit shape), data address anywhere in the slice's data range including unaligned, search limit, mapped/unmapped",
-    "bound": "3-byte table window (24 regions), unwind 26 (+ per-loop bounds 5 on the byte loops) with unwinding assertions; byte and bit paths of the fast search (the 8-byte word path needs >= 8 aligned table bytes and is outside this bound).",
-    "outside": "scan_non_zero_values (its harness exhausts 16 GB even on a 3-byte bitmap: kept as work in progress, not claimed); the word-at-a-time path of the fast search (a window of >= 8 bytes did not finish within 15 min); widths other than 1 bit; searches that leave the window; metadata mapped for only part of the range",
+    "sym": "all bytes of a 3-byte table slice (24 one-bit regions of 8 bytes: the VO-bit shape; thorough tier: 9 bytes = one aligned word + tail byte, and 2/4/8-bit fields with region sizes 2^0..2^6), data address anywhere in the slice's data range including unaligned, search limit / scan range, mapped/unmapped",
+    "bound": "Quick: 3-byte table window (24 regions), unwind 26 (+ per-loop bounds) with unwinding assertions: byte and bit paths of find_prev / find_next / scan.  Thorough: 9-byte window (word-at-a-time path, unwind 74) for find_prev / find_next, and multi-bit specs on 3 bytes.",
+    "outside": "windows above 9 bytes (16 bytes did not finish in 15 min); scan on the 9-byte window and on multi-bit specs (memory); searches that leave the window; metadata mapped for only part of the range",
     "assumptions": COMMON_ASSUME + ["E1 base hook; E2: Address::load redirected to a static 64-byte buffer (array read); E3: Address::is_mapped answers from harness ranges (data range and table both mapped, or both unmapped)", "search range stays inside the window; scan ranges are region aligned"],
-    "level_text": "Bounded symbolic execution (Kani/CBMC) of the real find_prev / find_next entry points (fast path plus the in-code naive cross-check) on a 3-byte bitmap with arbitrary contents, start address (aligned or not) and limit, compared with an independent region-by-region oracle: same result. scan_non_zero_values and the word-at-a-time path are outside the claim.",
-    "level_note": "Small window: byte/bit paths only.",
+    "level_text": "Bounded symbolic execution (Kani/CBMC) of the real find_prev / find_next / scan entry points (fast paths plus the in-code naive cross-check) on a small bitmap with arbitrary contents, start address (aligned or not) and limit, compared with an independent region-by-region oracle: same result, same visited regions in ascending order, once each.",
+    "level_note": "Small windows; the spec shape is concrete per harness (a symbolic-but-constrained shape cost 60x more).",
 }
 
 PROPS["C24"] = {
@@ -233,6 +233,17 @@ PROPS["C27"] = {
     "level_note": "Configuration-list bound (see outside-the-claim): weaker than the other claims, stated as such; found F3 and F3b.",
 }
 
+PROPS["C28"] = {
+    "enc": ["MonotonePageResource::new_contiguous", "alloc_pages", "reset", "release_pages", "reset_cursor", "cursor", "PageResource::{get_new_pages, reserve_pages, clear_request, commit_pages, reserved_pages, committed_pages}",
+            "CommonPageResource::new", "PageAccounting::{reserve, commit, clear_reserved, reset, reserve_and_commit, get_reserved_pages, get_committed_pages}", "std::sync::Mutex (single thread)"],
+    "sym": "space start (chunk aligned, any address below 2^46), 1..=3 chunks; history of 4 acquire-shaped steps: reserve r in 1..=2048 pages, then request a >= r pages or give the reservation up; the new top for reset_cursor",
+    "bound": "Monotone page resource of a contiguous space, <= 3 chunks, <= 4 steps + reset; single thread; unwind 6.",
+    "outside": "FreeListPageResource (RawMemoryFreeList table / Map64: see C27), BlockPageResource (BlockPool, DESIGN P17), discontiguous growth through VM_MAP/grow_discontiguous_space, multi-threaded histories, the VMMap object (a harness stub that is never called on this path)",
+    "assumptions": COMMON_ASSUME + ["requests ask for at least what was reserved (commit_pages accounts the difference; Space::acquire asks for exactly the reservation)", "a failed request is followed by clear_request (as Space::acquire does)"],
+    "level_text": "Bounded symbolic execution (Kani/CBMC) of the real monotone page resource and page accounting over every 4-step reserve/allocate/give-up history on a contiguous space of up to 3 chunks at a symbolic address: grants are page aligned, consecutive (hence disjoint) and inside the space, a request fails only when it does not fit, reserved == committed == pages granted at quiescence, and reset / reset_cursor restore exactly the documented state.",
+    "level_note": "Monotone + accounting only; the other page resources are outside the claim.",
+}
+
 NOT_APPLICABLE = {}
 _L = ("observable only on a live collector (MMTK instance, mmap'd heap, OS worker threads, VM call-backs); Kani has no thread/FFI model and a "
       "whole collection is outside any unwinding bound; the bit-level kernels are decided under ")
@@ -259,7 +270,6 @@ NOT_APPLICABLE.update({
 # Planned in DESIGN.md section 3 but not claimed (reasons measured or stated in DESIGN.md section 8.6).
 NOT_APPLICABLE.update({
     "C10": "the retry-loop kernel (Allocator::alloc_slow_inline) needs an AllocatorContext with Arc<Options> and Arc<GCTrigger>; Options::default() goes through env-var/String parsing (DESIGN P11: does not encode) and GCTrigger::new needs a boxed policy from Options; Space::acquire/poll need a space with a page resource",
-    "C28": "page resources need CommonPageResource + a VMMap and (FreeListPageResource) a RawMemoryFreeList table: the free-list table alone exhausts 16 GB per query unless every size is concrete (C26/C27), and MonotonePageResource::alloc_pages goes through the global MMAPPER/VM_MAP singletons and Mutex-protected state; BlockPageResource sits on BlockPool (DESIGN P17: 22 GB)",
     "C29": "Map32 keeps two Vec<i32> link tables, a descriptor Vec and two IntArrayFreeLists behind a Mutex and calls the global SFT_MAP (InitializeOnce<Box<dyn SFTMap>>, AtomicU128 entries: inline asm not executable by Kani) on every free; the free-list component alone is at the memory limit for 6 units / 3 operations (C26), so histories over the composed structure are out of reach",
     "C37": "DESIGN P19: the two-block / two-object formulation of ForwardingMetadata did not finish in 14 min at 5 GB (the bit-scan loop is unrolled to the global bound at every call site); the planned split formulation was not built in the available time",
 })
